@@ -45,6 +45,9 @@ type Schema struct {
 	OneOf          []*Schema
 	AnyOf          []*Schema
 	AllOf          []*Schema
+	reqOnly        []string          // a member schema that is just {"required": [...]}
+	DiscProp       string            // discriminator.propertyName
+	DiscMap        map[string]string // value -> component name
 }
 
 type Prop struct {
@@ -68,8 +71,8 @@ var patterns = []*patternPair{
 	{`[0-9]`, regexp.MustCompile(`[0-9]`), []string{"a1", "7", "x9y"}, []string{"", "abc"}},
 }
 
-func ip(i int) *int        { return &i }
-func i64p(i int64) *int64  { return &i }
+func ip(i int) *int           { return &i }
+func i64p(i int64) *int64     { return &i }
 func f64p(f float64) *float64 { return &f }
 
 func (s *Schema) JSON() map[string]any {
@@ -77,6 +80,9 @@ func (s *Schema) JSON() map[string]any {
 	if s.Ref != "" {
 		m["$ref"] = "#/components/schemas/" + s.Ref
 		return m
+	}
+	if s.reqOnly != nil {
+		m["required"] = s.reqOnly
 	}
 	if s.Type != "" {
 		m["type"] = s.Type
@@ -182,6 +188,13 @@ func (s *Schema) JSON() map[string]any {
 	if s.AllOf != nil {
 		m["allOf"] = sub(s.AllOf)
 	}
+	if s.DiscProp != "" {
+		mp := map[string]any{}
+		for k, v := range s.DiscMap {
+			mp[k] = "#/components/schemas/" + v
+		}
+		m["discriminator"] = map[string]any{"propertyName": s.DiscProp, "mapping": mp}
+	}
 	return m
 }
 
@@ -258,6 +271,15 @@ func (env Env) Valid(s *Schema, v any) bool {
 		}
 		if s.Type != "" {
 			return false
+		}
+	}
+	if s.reqOnly != nil {
+		if x, ok := v.(map[string]any); ok {
+			for _, k := range s.reqOnly {
+				if _, ok := x[k]; !ok {
+					return false
+				}
+			}
 		}
 	}
 	switch s.Type {
@@ -577,9 +599,49 @@ func (g *SchemaGen) prim() *Schema {
 	}
 }
 
+// GenSum generates one of the composition shapes ogen implements: allOf merging, oneOf/anyOf with
+// unambiguous discrimination (by JSON type, by discriminator with mapping, by unique required fields).
+func (g *SchemaGen) GenSum() *Schema {
+	r := g.rng
+	objComp := func(props ...Prop) (*Schema, string) {
+		ref := g.Component(&Schema{Type: "object", Props: props})
+		return ref, ref.Ref
+	}
+	switch r.Intn(7) {
+	case 0: // oneOf by type
+		subs := []*Schema{{Type: "string", MinLen: ip(1)}, {Type: "integer", MinI: i64p(0)}}
+		if r.Bool() {
+			subs = append(subs, &Schema{Type: "boolean"})
+		}
+		return g.Component(&Schema{OneOf: subs})
+	case 1: // anyOf by type
+		return g.Component(&Schema{AnyOf: []*Schema{{Type: "string", MaxLen: ip(4)}, {Type: "number", MaxF: f64p(10)}}})
+	case 2: // oneOf with discriminator + mapping
+		a, an := objComp(Prop{"kind", &Schema{Type: "string", Enum: []any{"a"}}, true}, Prop{"x", &Schema{Type: "integer", MinI: i64p(0)}, true})
+		b, bn := objComp(Prop{"kind", &Schema{Type: "string", Enum: []any{"b"}}, true}, Prop{"y", &Schema{Type: "string", MinLen: ip(1)}, r.Bool()})
+		return g.Component(&Schema{OneOf: []*Schema{a, b}, DiscProp: "kind", DiscMap: map[string]string{"a": an, "b": bn}})
+	case 3: // oneOf by unique required fields
+		a, _ := objComp(Prop{"ua", &Schema{Type: "integer"}, true}, Prop{"c", &Schema{Type: "string"}, false})
+		b, _ := objComp(Prop{"ub", &Schema{Type: "string", MaxLen: ip(3)}, true}, Prop{"c", &Schema{Type: "string"}, false})
+		return g.Component(&Schema{OneOf: []*Schema{a, b}})
+	case 4: // allOf: base + required-only member
+		base, _ := objComp(Prop{"name", &Schema{Type: "string", MinLen: ip(1)}, false}, Prop{"tag", &Schema{Type: "string"}, false}, Prop{"n", &Schema{Type: "integer"}, r.Bool()})
+		return g.Component(&Schema{AllOf: []*Schema{base, {Props: nil, Type: "", reqOnly: []string{lp.Pick(r, []string{"name", "tag"})}}}})
+	case 5: // allOf: two objects with disjoint members
+		a, _ := objComp(Prop{"p", &Schema{Type: "integer", MaxI: i64p(5)}, true})
+		b, _ := objComp(Prop{"q", &Schema{Type: "string", Pattern: patterns[0]}, r.Bool()})
+		return g.Component(&Schema{AllOf: []*Schema{a, b}})
+	default: // allOf on a primitive: two halves of a range
+		return g.Component(&Schema{AllOf: []*Schema{{Type: "integer", MinI: i64p(int64(r.Intn(3)))}, {Type: "integer", MaxI: i64p(int64(5 + r.Intn(3)))}}})
+	}
+}
+
 // Gen generates a schema of the given depth; named=true wraps objects in components.
 func (g *SchemaGen) Gen(depth int) *Schema {
 	r := g.rng
+	if g.Sums && depth > 0 && r.Chance(18) {
+		return g.GenSum()
+	}
 	if depth == 0 || r.Chance(35) {
 		s := g.prim()
 		if r.Chance(15) {
@@ -675,6 +737,60 @@ func (g *SchemaGen) GenValid(s *Schema, depth int) (any, bool) {
 	}
 	if s.Enum != nil {
 		return normJSON(lp.Pick(r, s.Enum)), true
+	}
+	if s.OneOf != nil || s.AnyOf != nil {
+		subs := s.OneOf
+		if subs == nil {
+			subs = s.AnyOf
+		}
+		for attempt := 0; attempt < 20; attempt++ {
+			v, ok := g.GenValid(lp.Pick(r, subs), depth)
+			if ok && env.Valid(s, v) {
+				return v, true
+			}
+		}
+		return nil, false
+	}
+	if s.AllOf != nil {
+		for attempt := 0; attempt < 30; attempt++ {
+			// merge object members of every branch; for primitives take a value of the first and test the rest
+			merged := map[string]any{}
+			var prim any
+			isObj := false
+			for _, sub := range s.AllOf {
+				if sub.reqOnly != nil {
+					continue
+				}
+				v, ok := g.GenValid(sub, depth)
+				if !ok {
+					continue
+				}
+				if m, ok := v.(map[string]any); ok {
+					isObj = true
+					for k, e := range m {
+						merged[k] = e
+					}
+				} else if prim == nil {
+					prim = v
+				}
+			}
+			var v any = prim
+			if isObj {
+				// fill members demanded by required-only branches
+				for _, sub := range s.AllOf {
+					for _, k := range sub.reqOnly {
+						if _, ok := merged[k]; !ok {
+							merged[k] = "x"
+						}
+					}
+				}
+				v = merged
+			}
+			if v != nil && env.Valid(s, v) {
+				return v, true
+			}
+		}
+		return nil, false
 	}
 	for attempt := 0; attempt < 40; attempt++ {
 		var v any
@@ -826,6 +942,35 @@ func (g *SchemaGen) Mutants(s *Schema, v any, depth int) []any {
 		out = append(out, map[string]any{}, "[]")
 	case map[string]any:
 		out = append(out, []any{}, "{}")
+	}
+	for _, subs := range [][]*Schema{s.OneOf, s.AnyOf, s.AllOf} {
+		for _, sub := range subs {
+			if sub.reqOnly != nil {
+				if m, ok := v.(map[string]any); ok {
+					for _, k := range sub.reqOnly {
+						c := map[string]any{}
+						for kk, e := range m {
+							if kk != k {
+								c[kk] = e
+							}
+						}
+						out = append(out, c)
+					}
+				}
+				continue
+			}
+			if env.Valid(sub, v) || s.AllOf != nil {
+				// mutants inside the branch the value belongs to (for allOf: every branch, applied to the merged value)
+				for _, mu := range g.Mutants(sub, v, depth) {
+					if _, isMap := v.(map[string]any); isMap {
+						if _, ok := mu.(map[string]any); !ok && r.Chance(70) {
+							continue
+						}
+					}
+					out = append(out, mu)
+				}
+			}
+		}
 	}
 	switch s.Type {
 	case "string":
